@@ -404,6 +404,14 @@ func (s *setSubj[T]) check(o *Oracle) {
 			if !s.s.Contains(vals...) {
 				o.Fail(tag, "contains-multi", "after %s: Contains(Values()...) is false; Values() = %s", o.cur, joinS(vals, s.d.Str))
 			}
+			// ... and every member twice in a row (a sorted list that kept its duplicates, checked against the set)
+			twice := make([]T, 0, 2*len(vals))
+			for _, v := range vals {
+				twice = append(twice, v, v)
+			}
+			if !s.s.Contains(twice...) {
+				o.Fail(tag, "contains-multi", "after %s: Contains(%s) is false, every argument is a member", o.cur, joinS(twice, s.d.Str))
+			}
 			for _, x := range s.d.Probes {
 				if s.find(x) < 0 {
 					mixed := slices.Insert(slices.Clone(vals), derive(o.cur.ID, 8, len(vals)+1), x)
